@@ -95,13 +95,38 @@ def get_title_injection_candidate(node: n.Node) -> Optional[n.Parent[n.Node]]:
             return None
 
 
+def without_ids(nodes: Sequence[n.Node]) -> MutableSequence[n.Node]:
+    """Remove from a list of (freshly copied) title nodes what must exist only once on a page:
+    footnote references are dropped, an inline target is replaced by its text."""
+    result: MutableSequence[n.Node] = []
+    for node in nodes:
+        if isinstance(node, n.FootnoteReference):
+            continue
+        if isinstance(node, n.InlineTarget):
+            result.extend(
+                without_ids(
+                    [
+                        child
+                        for child in node.children
+                        if not isinstance(child, n.TargetIdentifier)
+                    ]
+                )
+            )
+            continue
+        if isinstance(node, n.Parent):
+            node.children = without_ids(node.children)
+        result.append(node)
+    return result
+
+
 def without_ref_roles(
     nodes: Sequence[n.Node], own: n.RefRole
 ) -> MutableSequence[n.Node]:
     """Replace every cross-reference role in a list of (freshly copied) nodes by its own children;
-    a reference to what "own" itself refers to is dropped altogether."""
+    a reference to what "own" itself refers to is dropped altogether. What carries an id
+    (footnote references, inline targets) does not come along either."""
     result: MutableSequence[n.Node] = []
-    for node in nodes:
+    for node in without_ids(nodes):
         if isinstance(node, n.RefRole):
             if (node.domain, node.name, node.target, node.fileid) != (
                 own.domain,
@@ -1842,7 +1867,11 @@ class AddTitlesToLabelTargetsHandler(Handler):
                         )
                 if heading is not None:
                     assert isinstance(target, n.Parent)
-                    target.children = heading.children
+                    # A copy: the title of the label is built output of its own, and
+                    # whatever carries an id in the heading stays in the heading
+                    target.children = without_ids(
+                        util.fast_deep_copy(heading.children)
+                    )
             self.pending_targets = []
 
 
